@@ -301,8 +301,13 @@ class QlassF(QCircuitWrapper):
         assert isinstance(fun_ast.body[0], ast.FunctionDef)
 
         if isinstance(f, str):
-            exec(f, globals())
-        original_f = eval(fun_ast.body[0].name) if isinstance(f, str) else f
+            # Execute the code in a copy of this namespace: a function called like a name used
+            # here (copy, ast2ast, flatten, f, ...) must not replace it
+            f_globals = dict(globals())
+            exec(f, f_globals)
+            original_f = f_globals[fun_ast.body[0].name]
+        else:
+            original_f = f
 
         def _do_translate(fun_ast, original_f):
             # print(ast.dump(fun_ast, indent=4))
